@@ -99,9 +99,14 @@ def _round(args):
 
 
 def _raised_in_implementation(tb_text):
-    """does the innermost frame of the traceback lie in the library under test?"""
-    frames = re.findall(r'File "([^"]+)", line \d+', tb_text)
-    return bool(frames) and os.path.abspath(frames[-1]).startswith(os.path.join(os.path.abspath(common.REPO), "hmclab"))
+    """did the exception escape from the library under test (a library frame below the last harness frame)?"""
+    frames = [os.path.abspath(f) for f in re.findall(r'File "([^"]+)", line \d+', tb_text)]
+    lib = os.path.join(os.path.abspath(common.REPO), "hmclab")
+    har = os.path.join(VERIF, "harness")
+    # the frames below the last harness frame: the exception escaped from the library if one of them lies in it (the innermost one may be
+    # NumPy / SciPy / h5py called by the library)
+    last_h = max([i for i, f in enumerate(frames) if f.startswith(har)], default=-1)
+    return any(f.startswith(lib) for f in frames[last_h + 1:])
 
 
 def match_known(finding, known):
